@@ -30,7 +30,7 @@ def run(ctx):
     total_h += n
     total_ops += o
     plans = [
-        ("cyc", ["--seed", ctx.seed, "--count", 250 if quick else 4000, "--max-ops", 30 if quick else 60, "--reopen-pct", 4]),
+        ("cyc", ["--seed", ctx.seed, "--count", 600 if quick else 4000, "--max-ops", 30 if quick else 60, "--reopen-pct", 4]),
         ("churn", ["--seed", ctx.seed + 17, "--count", 10 if quick else 150, "--max-ops", 12, "--mini-churn"]),
         ("cycbig", ["--seed", ctx.seed + 5, "--count", 30 if quick else 400, "--max-ops", 40, "--big"]),
     ]
